@@ -105,6 +105,9 @@ def shards(tier, seed):
         n = max(1, -(-cnt // per))
         for k in range(n):
             specs.append(dict(b=b, o=o, k=k, n=n))
+    nb = 4 if tier == "quick" else 16
+    for k in range(nb):
+        specs.append(dict(bigid=True, b=dict(N=3, G=2) if tier == "quick" else dict(N=4, G=2), o={}, k=k, n=nb))
     return specs
 
 
@@ -568,8 +571,70 @@ def check_struct(m0, opts, acc):
         acc.sample({"member": m0.desc(), "edges": m0.edges()})
 
 
+BIG_SHIFT = 50000  # > 46340 = sqrt(2**31): products of two node ids no longer fit 32 bits
+
+
+def check_bigid(m, acc):
+    """Metamorphic scale probe: the same genealogy with every node id shifted by BIG_SHIFT (dummy
+    non-sample nodes in front) must give the same segments with shifted ids, under every store option."""
+    import numpy as np
+
+    S = [u for u in range(m.N)]
+    tc = m.tables()
+    K = BIG_SHIFT
+    big = tc.copy()
+    big.nodes.clear()
+    big.edges.clear()
+    n = tc.nodes
+    big.nodes.set_columns(flags=np.concatenate([np.zeros(K, dtype=n.flags.dtype), n.flags]),
+                          time=np.concatenate([np.zeros(K), n.time]))
+    e = tc.edges
+    big.edges.set_columns(left=e.left, right=e.right, parent=e.parent + K, child=e.child + K)
+    case = {"bigid": True, "member": m.desc()}
+    acc.enter(case)
+    configs = [("within", S)]
+    if m.N >= 2:
+        configs.append(("between", [[S[0]], S[1:]]))
+        configs.append(("within", S[::-1][:2]))
+    for kind, sets in configs:
+        for sp, ss in ((False, False), (True, False), (False, True), (True, True)):
+            kw0 = {kind: sets}
+            kw1 = {kind: ([u + K for u in sets] if kind == "within" else [[u + K for u in x] for x in sets])}
+            try:
+                r0 = tc.ibd_segments(store_pairs=sp, store_segments=ss, **kw0)
+                r1 = big.ibd_segments(store_pairs=sp, store_segments=ss, **kw1)
+                ok = r0.num_segments == r1.num_segments and abs(r0.total_span - r1.total_span) <= EPS
+                what = f"num_segments/total_span {r1.num_segments}/{r1.total_span} vs {r0.num_segments}/{r0.total_span}"
+                if ok and (sp or ss):
+                    p0 = sorted(tuple(sorted((a + K, b + K))) for a, b in r0.pairs.tolist())
+                    p1 = sorted(tuple(sorted((int(a), int(b)))) for a, b in r1.pairs.tolist())
+                    ok = p0 == p1
+                    what = f"pairs {p1[:4]} expected {p0[:4]}"
+                    if ok:
+                        for a, b in p1:
+                            l1, l0 = r1[(a, b)], r0[(a - K, b - K)]
+                            if len(l1) != len(l0) or abs(l1.total_span - l0.total_span) > EPS:
+                                ok, what = False, f"pair {(a, b)}: {len(l1)} segments / span {l1.total_span}"
+                                break
+                            if ss and sorted(zip(l1.left.tolist(), l1.right.tolist(), l1.node.tolist())) != \
+                                    sorted((l, r, u + K) for l, r, u in zip(l0.left.tolist(), l0.right.tolist(), l0.node.tolist())):
+                                ok, what = False, f"pair {(a, b)}: segments differ after the id shift"
+                                break
+            except Exception as ex:  # noqa
+                ok, what = False, f"raised {ex!r}"
+            acc.ev(1, bool(m.edges()))
+            if not ok:
+                acc.fail(f"bigid:{kind}", f"ids shifted by {K}, store_pairs={sp}, store_segments={ss}, {kind}={sets}: {what}",
+                         dict(case, kind=kind, sets=sets))
+
+
 def run_shard(spec):
     acc = Acc()
+    if spec.get("bigid"):
+        for m in U.shard(U.enumerate_members(flags="none", **spec["b"]), spec["k"], spec["n"]):
+            if m.N >= 2:
+                check_bigid(m, acc)
+        return acc.result()
     gen = U.enumerate_members(flags="none", **spec["b"])
     if spec["o"].get("only_unsquashed"):
         gen = (m for m in gen if unsquashed_matters(m))
@@ -581,6 +646,9 @@ def run_shard(spec):
 def replay(case):
     acc = Acc()
     m = U.Member.from_desc(case["member"])
+    if case.get("bigid"):
+        check_bigid(m, acc)
+        return acc.failures
     mask = sum(1 << u for u in range(m.N) if m.flags[u])
     m0 = U.Member(m.N, m.G, m.ranks, m.parents, [0] * m.N, m.grid, m.squash, m.timescale)
     ctx = Ctx(m0)
